@@ -217,7 +217,7 @@ def apply_edit(play, kind, rng):
             p["hosts"] = "other"
         return p, "excluded:hosts"
     if kind == "crafted":
-        which = rng.randrange(10)
+        which = rng.randrange(12)
         target = p
         # choose a random mapping inside the signed part to host the crafted entry
         maps = [(path, c, k) for path, c, k in paths(p) if isinstance(c[k], dict) and path[0] not in ("hosts",) and path != ("vars",)]
@@ -273,6 +273,24 @@ def apply_edit(play, kind, rng):
             target["s2"] = ["x', 'y\"z"]
             tq["s2"] = ["x", "y\"z"]
             return (p, q), "crafted:both-quotes-string-vs-list-items"
+        if which == 10:
+            # a control character next to a hex digit vs the one character whose code those two hex digits spell, and
+            # a control character vs the text of an escape sequence for it
+            c = rng.choice([1, 1, 2, 7, 0xb, 0xc, 0xe, 0xf, 0x1b])
+            h = rng.choice("0123456789abcdef")
+            tail = rng.choice(["", "z", " x"])
+            a_, b_ = rng.choice([(chr(c) + h + tail, chr((c * 16 + int(h, 16)) % 0x110000) + tail),
+                                 (chr(c) + tail, "\\x%02x" % c + tail), (chr(c) + tail, "\\x%x" % c + tail),
+                                 (chr(c) + h + tail, "\\x%x%s" % (c, h) + tail), ("\x7f" + tail, "\\x7f" + tail), ("\r" + tail, "\\r" + tail)])
+            target["ctl"] = a_
+            tq["ctl"] = b_
+            return (p, q), "crafted:control-character-vs-escape-text"
+        if which == 11:
+            c = rng.choice([1, 7, 0xc, 0x1f])
+            target[chr(c) + "0"] = "v"
+            tq.pop(chr(c) + "0", None)
+            tq[chr(c * 16)] = "v"
+            return (p, q), "crafted:control-character-in-key"
         target["n"] = [1]
         tq["n"] = 1
         return (p, q), "crafted:single-item-list-vs-item"
@@ -482,7 +500,9 @@ def run_case(spec, ctx):
                 what = "revoked"
                 cleaned, _ = model_exclude(base)
                 h = hashlib.sha256(pv.serialize_play(pv.exclude_dynamic_elements(base))).hexdigest()
-                revoked = [{"name": "other", "hash": "00" * 32}, {"name": "this", "hash": rng.choice([h, h.upper()])}]
+                revoked = [{"name": "other%d" % n_, "hash": "%02x" % n_ * 32} for n_ in range(rng.randint(0, 4))]
+                revoked.insert(rng.randint(0, len(revoked)), {"name": "this", "hash": rng.choice([h, h.upper()])})
+                ctx.seen("revoked_entry_positions", "%d of %d" % ([r_["name"] for r_ in revoked].index("this") + 1, len(revoked)))
             elif choice == 6:
                 base["vars"] = "not a mapping"
                 what = "vars-not-a-mapping"
